@@ -2,9 +2,9 @@
    cs: the components in a topological order, with parsed references; info: what propagate_replicate
    computes; expand_with info cs: the replicated workflow (structured layer).  The textual layer
    (what compile_component_replica does to strings) is tied to it by C03_textual_refines. *)
-From Coq Require Import String List Bool NArith.
+From Coq Require Import String Ascii List Bool NArith.
 Import ListNotations.
-Require Import V.Lib.PyStr V.Repl.Model V.Repl.Proofs.
+Require Import V.Lib.PyStr V.Repl.Model V.Repl.Proofs V.Repl.Aggregate V.Repl.Dataflow V.Repl.Arguments.
 Open Scope list_scope.
 
 (* The replicated region: a component carries the count n exactly when it requests n replicas itself or
@@ -93,6 +93,69 @@ Proof.
 Qed.
 Print Assumptions C03_textual_refines.
 
+(* The strings of an aggregator: compile_component_aggregate (translation map with the list of copies per spelling,
+   regular-expression search, str.replace, then str.split() of every rewritten reference) turns the declared
+   reference strings of an aggregating component into exactly the spellings of the structured rewiring — every
+   replicated reference replaced by all its copies in index order, everything else unchanged — under agg_sep
+   (Model.v: agg_guard, pairwise different spellings, single-word references, and no spelling of another
+   replicated reference found by the regular expression).  The count handed to the function is the aggregator's
+   own propagated count; that it is the count of each replicated producer is part of the proof. *)
+Theorem C03_textual_refines_aggregate : forall cs info c sc,
+  NoDup (map sid cs) -> propagate cs = Some info -> In sc cs -> s_agg sc = true ->
+  t_refs c = map spell (s_refs sc) -> agg_sep info (s_refs sc) = true ->
+  exists count, expand_one_t info c sc = [aggregate_comp c (repl_refs info (s_refs sc)) count] /\
+                expand_one info sc = [agg_comp info sc] /\
+                o_refs (aggregate_comp c (repl_refs info (s_refs sc)) count) = map spell (so_refs (agg_comp info sc)).
+Proof. intros cs info c sc Hnd Hp. exact (textual_aggregate cs info Hnd Hp c sc). Qed.
+Print Assumptions C03_textual_refines_aggregate.
+
+(* agg_sep is the guard the correspondence evaluates (agg_guard) plus further computable conditions *)
+Theorem C03_agg_sep_guard : forall info refs, agg_sep info refs = true -> agg_guard info refs = true.
+Proof.
+  intros info refs H. unfold agg_sep in H. apply andb_true_iff in H as [H _]. apply andb_true_iff in H as [H _]. exact H.
+Qed.
+Print Assumptions C03_agg_sep_guard.
+
+(* The dataflow of the code's algorithm.  For a workflow whose references are written in the printed spelling
+   (canonical_refs), every component of which satisfies its guard (comp_guard: no_overlap for every copy, agg_sep
+   for aggregators, and the component name untouched by the rewriting), and whose structured expansion is read
+   back by the parser as written (rt_ok, computable): the textual expansion expand_t — what replicate() returns —
+   consists, in order, of the spellings of the components of the structured expansion (same stage, name, replica
+   index, references), has the same nodes, and edges_of (the edges _createCompleteGraph derives by parsing the
+   rewritten strings) is exactly the edge list of the structured expansion, whose shape the C03_structured_*
+   theorems give. *)
+Theorem C03_textual_dataflow : forall w scs info tout,
+  parse_comps w (w_comps w) = Some scs -> NoDup (map sid scs) -> propagate scs = Some info ->
+  expand_t w = Some tout ->
+  canonical_refs (w_comps w) scs = true -> forallb (comp_guard info) scs = true ->
+  rt_ok (expand_with info scs) = true ->
+  tout = expand_all_t info (w_comps w) scs /\
+  Forall2 corr (expand_with info scs) tout /\
+  map (fun o => node_name (o_stage o) (o_name o)) tout =
+    map (fun o => node_name (so_stage o) (so_name o)) (expand_with info scs) /\
+  edges_of tout = sedges_of (expand_with info scs).
+Proof. exact textual_dataflow. Qed.
+Print Assumptions C03_textual_dataflow.
+
+(* The argument string of a copy: the same sequential str.replace, applied to command.arguments written as
+   blank-separated tokens, rewrites exactly the tokens that are declared spellings (to the spelling of the
+   structured rewiring of that reference, second conjunct) and leaves every other token and every blank as it
+   is, under no_overlap and args_sep (no spelling is empty or contains a blank; every token either is a
+   spelling or contains none). *)
+Theorem C03_textual_arguments_replica : forall info c sc n i toks,
+  t_args c = join " " toks ->
+  no_overlap info i (s_refs sc) = true ->
+  args_sep (sorted_translation (repl_refs info (s_refs sc)) i) toks = true ->
+  o_args (replica_comp c (repl_refs info (s_refs sc)) n i) =
+    join " " (map (tok_spec (sorted_translation (repl_refs info (s_refs sc)) i)) toks) /\
+  forall r, In r (s_refs sc) ->
+    tok_spec (sorted_translation (repl_refs info (s_refs sc)) i) (spell r) = spell (rw_ref info i r).
+Proof.
+  intros info c sc n i toks Ht Hno Hsep. cbn [o_args replica_comp]. rewrite Ht.
+  exact (textual_args_replica info (s_refs sc) i toks Hno Hsep).
+Qed.
+Print Assumptions C03_textual_arguments_replica.
+
 (* non-vacuity: A (2 replicas, count via a variable) -> C (also reads B) -> aggregator D -> E *)
 Definition ex_wf : twf := {| w_gvars := [("n", "2")]%string; w_svars := []; w_comps := [
   {| t_stage := 0; t_name := "A"; t_refs := []; t_args := "hi"; t_rep := RVar "n"; t_agg := false; t_vars := [] |};
@@ -113,6 +176,17 @@ Example C03_nonvacuous :
        ("C0", Some 0, ["stage0.A0:ref"; "stage0.B/out.txt:copy"]); ("C1", Some 1, ["stage0.A1:ref"; "stage0.B/out.txt:copy"]);
        ("D", None, ["stage0.C0:output"; "stage0.C1:output"]); ("E", None, ["D:ref"])]%string%N /\
     forallb (fun sc => no_overlap info 0 (s_refs sc) && no_overlap info 1 (s_refs sc)) scs = true /\
+    forallb (fun sc => agg_sep info (s_refs sc)) scs = true /\
+    canonical_refs (w_comps ex_wf) scs = true /\ forallb (comp_guard info) scs = true /\
+    rt_ok out = true /\
+    (* the copies of C: arguments "A:ref stage0.B/out.txt:copy" *)
+    forallb (fun c => negb (String.eqb (t_name c) "C") ||
+                      (args_sep (sorted_translation (repl_refs info (match parse_comp ex_wf c with Some sc => s_refs sc | None => [] end)) 1)
+                                (split_on " "%char (t_args c)) &&
+                       String.eqb (join " " (split_on " "%char (t_args c))) (t_args c))) (w_comps ex_wf) = true /\
+    sedges_of out = [("stage0.A0", "stage0.C0"); ("stage0.B", "stage0.C0"); ("stage0.A1", "stage0.C1");
+                     ("stage0.B", "stage0.C1"); ("stage0.C0", "stage1.D"); ("stage0.C1", "stage1.D");
+                     ("stage1.D", "stage1.E")]%string /\
     option_map (map (fun o => (o_name o, o_refs o, o_args o))) (expand_t ex_wf) =
       Some [("A0", [], "hi"); ("A1", [], "hi"); ("B", [], "hi");
             ("C0", ["stage0.A0:ref"; "stage0.B/out.txt:copy"], "stage0.A0:ref stage0.B/out.txt:copy");
@@ -123,6 +197,12 @@ Proof.
   eexists. eexists. eexists.
   split; [vm_compute; reflexivity|].
   split; [repeat constructor; cbn; intuition discriminate|].
+  split; [vm_compute; reflexivity|].
+  split; [vm_compute; reflexivity|].
+  split; [vm_compute; reflexivity|].
+  split; [vm_compute; reflexivity|].
+  split; [vm_compute; reflexivity|].
+  split; [vm_compute; reflexivity|].
   split; [vm_compute; reflexivity|].
   split; [vm_compute; reflexivity|].
   split; [vm_compute; reflexivity|].
